@@ -205,6 +205,12 @@ def enum_inputs(con, variant, n, rng, limit, selfloops=False):
             if getattr(con, "acyclic_inputs", ()) and True:
                 pass
             return g
+        if kind == "tagged_dag":
+            order = rng.sample(range(n), n)
+            pos = {v: i for i, v in enumerate(order)}
+            edges = [(i, j) for i in range(n) for j in range(n) if pos[i] < pos[j] and rng.random() < 0.45]
+            hidden = [i for i in range(n) if rng.random() < 0.4]
+            return {"kind": "digraph", "nodes": list(range(n)), "edges": edges, "attrs": {"hidden": (list(range(n)), hidden)}}
         if kind in ("digraph", "ugraph"):
             present = [i for i in range(n) if rng.random() < 0.85]
             pres = set(present)
@@ -292,6 +298,11 @@ def exhaustive_inputs(con, variant, n, cap, rng):
             import random as _r
             rr = _r.Random(n)
             return [{"kind": "nodemap", "map": {i: sorted({i} | {j for j in range(n) if rr.random() < 0.35}) for i in range(n)}} for _ in range(12)]
+        if kind == "tagged_dag":
+            pairs = [(i, j) for i in range(n) for j in range(n) if i < j]
+            return [{"kind": "digraph", "nodes": list(range(n)), "edges": [e for b, e in enumerate(pairs) if mk >> b & 1],
+                     "attrs": {"hidden": (list(range(n)), [i for i in range(n) if hm >> i & 1])}}
+                    for mk in range(1 << len(pairs)) for hm in range(1 << n)]
         if kind in ("digraph", "ugraph"):
             pairs = [(i, j) for i in range(n) for j in range(n) if (i != j if kind == "digraph" else i < j)]
             return [{"kind": kind, "nodes": list(range(n)), "edges": [e for b, e in enumerate(pairs) if mk >> b & 1]}
@@ -537,7 +548,7 @@ def check_contract(rep: Report, repo, con, registry, known_open, budget_ms, kmax
         inst = G.instances[len(G.instances) // 2]
         rep.samples.append({"obligation": inst.oid, "goal": str(z3.simplify(inst.goal))[:400], "hypotheses": len(inst.hyps)})
     # vacuity guard: some returning path of every variant must be satisfiable on a small finite universe
-    if not (_cover_expr(G, rep) if (is_expr or getattr(con, "domain", "graph") == "graph+expr") else _cover_ok(repo, con, rep)):
+    if not (_cover_expr(G, rep) if (is_expr or getattr(con, "domain", "graph") == "graph+expr" or not getattr(con, "finite_ok", True)) else _cover_ok(repo, con, rep)):
         rep.errors.append(f"vacuous contract: no satisfiable returning path for {con.qual}")
     if open_oids and is_expr:
         # candidate counterexamples of expression obligations are confirmed by searching concrete expressions
@@ -567,7 +578,7 @@ def check_contract(rep: Report, repo, con, registry, known_open, budget_ms, kmax
                 o.reason = o.reason or "candidate counter-model, not confirmed on concrete expressions"
                 rep.undecided.append(o)
         return
-    if open_oids and getattr(con, "domain", "graph") == "graph":
+    if open_oids and getattr(con, "domain", "graph") == "graph" and getattr(con, "finite_ok", True):
         found = finite_search(repo, con, open_oids, kmax, budget_ms)
         for oid, (k, vi, model, note) in found.items():
             o = by[oid]
@@ -681,7 +692,7 @@ def run(pid, tier, seed, extra=None):
         undecided_funcs = {o.oid.split("/")[0] for o in rep.undecided}
         for con in cons:
             try:
-                if getattr(con, "domain", "graph") == "graph+expr" and not hasattr(con, "sample_args"):
+                if (getattr(con, "domain", "graph") == "graph+expr" or not getattr(con, "finite_ok", True)) and not hasattr(con, "sample_args"):
                     continue      # records mixing graphs and expressions: the property-level bounded part covers these functions
                 if getattr(con, "domain", "graph") in ("expr", "graph+expr"):
                     deep = con.qual in undecided_funcs or con.qual in rep.bounded_only
